@@ -168,8 +168,10 @@ class MultiNestedTensor(_MultiTensor):
         accum = torch.cumsum(offset_mat_zero_start[:, -1], dim=0)
         offset_mat_zero_start[1:] += accum[:-1].view(-1, 1)
         num_cols = end - start
+        # NOTE: `count.sum()` rather than `accum[-1]` so that a container
+        # with zero rows (e.g., the result of an empty row selection) works.
         offset = torch.full((self.num_rows * num_cols + 1, ),
-                            cast(int, accum[-1]))
+                            int(count.sum()))
         offset[:-1] = offset_mat_zero_start[:, :-1].flatten()
         return MultiNestedTensor(
             num_rows=self.num_rows,
